@@ -143,7 +143,7 @@ def field_path_any(v, name):
 
 
 def tuple_slots(chk, F, rule, cfg):
-    fns = [f for f in F.fns.values() if re.search(r'output::deep::tuples::tup\d', f.defp) and f.kind == 'assoc']
+    fns = [f for f in F.fns.values() if re.search(r'output::deep::tuples::tup\d', f.defp) and f.kind == 'assoc' and f.name in ('output', 'into_return', 'into_return_once')]
     chk.floor(rule, 'tuple conversion functions', len(fns), 12, config=cfg)
     for fn in sorted(fns, key=lambda f: f.defp):
         n = len([g for g in fn.generics if re.match(r'K\d', g)])
